@@ -12,6 +12,10 @@ Parts
            marker 'n/a' and with a present value, in compact and spaced spelling
   empty    tables given as DataFrames with '' cells (the property says empty cells are skipped like n/a)
   index    tables given as DataFrames with a non-default row index
+  na-words sidecars whose category KEYS are missing-value look-alikes (nan, NaN, null, None, NA and n/a itself) x DataFrame
+           tables whose cells hold exactly those texts: a cell that is neither 'n/a' nor empty selects the entry stored under
+           its text (also when the column is spliced through a reference, and as the text of a value column); a cell that IS
+           'n/a' stays absent even when the sidecar has an entry keyed 'n/a' (own narrow clause C06.cell.na_key_never_selected)
 """
 import copy
 import io
@@ -48,6 +52,7 @@ L_EMPTY_PLAIN = "C06.empty.plain_cell_skipped"
 L_EMPTY_VALUE = "C06.empty.value_cell_skipped"
 L_EMPTY_REF = "C06.empty.referenced_cell_disappears"
 L_INDEX = "C06.rows.nondefault_index"
+L_NAKEY = "C06.cell.na_key_never_selected"         # narrow: an n/a cell next to a sidecar entry keyed 'n/a' must stay absent
 L_NUMERIC = "C06.ref.numeric_column_name"          # new: '{7}' is read as a regex quantifier by replace_ref, the n/a reference stays
 
 
@@ -189,6 +194,14 @@ def assemble_spec(sidecar, columns, rows, absent=(NA, "")):
                 labels[c] = L_ABSENT
             else:
                 labels[c] = L_SPLICE
+        for c in bearing:  # an absent categorical cell whose text is also a KEY of the sidecar entry: narrow label
+            if kinds[c] == "cat" and cell[c] in absent and cell[c] in sidecar[c]["HED"]:
+                if c in referenced:
+                    for h in labels:
+                        if raw[h] is not None and c in REF_RE.findall(raw[h]):
+                            labels[h] = L_NAKEY
+                else:
+                    labels[c] = L_NAKEY
         for c in bearing:  # empty-cell cases get their own labels (part 'empty' only)
             if c not in referenced and cell[c] == "" and kinds[c] == "val":
                 labels[c] = L_EMPTY_VALUE
@@ -240,7 +253,7 @@ def check_case(sidecar, columns, rows, index=None, light=False):
     if len(s1) == len(rows):
         for k, exp in enumerate(exp_rows):
             row_labels = set(exp["labels"].values())
-            special = [l for l in (L_EMPTY_REF, L_EMPTY_VALUE, L_TWICE, L_D3) if l in row_labels]
+            special = [l for l in (L_NAKEY, L_EMPTY_REF, L_EMPTY_VALUE, L_TWICE, L_D3) if l in row_labels]
             for c, tree in exp["cols"].items():
                 if c not in a1.columns:
                     continue
@@ -650,6 +663,14 @@ def run(w: Workload):
     n = _absorb(w, _par(_special_jobs()), counters)
     w.part("empty+index", cases=n, bound="9 sidecars x 1-2 row DataFrames with '' cells; same with row index (5, 3, 9)",
            exhaustive=False)
+    # part na-words: category keys / cell texts that look like missing values
+    najobs = _na_word_jobs(quick)
+    n = _absorb(w, _par(najobs), counters)
+    w.part("na-words", cases=n, bound="key word in (nan, NaN, null, None, NA, n/a, all six) as an extra category of the host "
+           "column 'cat' and of the referenced column 'kat' x 5 entry shapes (no reference, {kat} at top level / in its own "
+           "group / next to a tag in a group, value template referencing {kat}); per sidecar one stacked DataFrame with the full "
+           "product of host cells (a, word, n/a, '', unknown) x kat cells (p, word, n/a, unknown) x value cells (v1, word), and "
+           "every single-row and every all-rows-equal two-row table of the word rows", exhaustive=True, sidecars=len(najobs))
     w.bounded[-1]["checks_per_clause"] = counters
     w.exhaustive = False
     w.not_covered += ["reading the table from a .tsv/.xlsx file (tables are passed as DataFrames of strings)",
@@ -731,6 +752,44 @@ def _special_jobs():
         tables.append((order, _as_rows([r3, base], order), [1, 0]))
         jobs.append({"kind": "given", "id": 20000 + k, "sidecar": sc, "tables": tables, "rename": k % len(RENAMES),
                      "text": sc[host]["HED"]["a"] if host == "cat" else sc[host]["HED"]})
+    return jobs
+
+
+NA_WORDS = ["nan", "NaN", "null", "None", "NA", NA]
+
+
+def _na_word_jobs(quick):
+    """sidecars with a category keyed by a missing-value look-alike, tables (as DataFrames of str) holding those texts"""
+    jobs = []
+    shapes = [("cat", "A", ()), ("cat", "A,{r}", ("kat",)), ("cat", "({r}),A", ("kat",)), ("cat", "(A,{r})", ("kat",)),
+              ("val", "A,({r})", ("kat",))]
+    word_sets = [[x] for x in NA_WORDS] + [list(NA_WORDS)]
+    for wi, words in enumerate(word_sets):
+        for si, (host, tpl, targets) in enumerate(shapes):
+            k = len(jobs)
+            sc = make_sidecar(host, tpl, targets, variant=k)
+            for j, word in enumerate(words):
+                sc["cat"]["HED"][word] = TAGS[(3 + j) % len(TAGS)] if j % 2 == 0 else "(%s, Big)" % TAGS[(3 + j) % len(TAGS)]
+                sc["kat"]["HED"][word] = "(%s, Small)" % TAGS[(5 + j) % len(TAGS)] if j % 2 == 0 else TAGS[(5 + j) % len(TAGS)]
+            order = ORDERS[k % 3]
+            base = {"onset": "1.5", "cat": "a", "kat": "p", "val": "v1", "wal": "7", "ign": "x", "HED": "Gray"}
+            cat_cells = ["a"] + words + ([NA] if NA not in words else []) + ["", "zz"]
+            kat_cells = ["p"] + words + ([NA] if NA not in words else []) + ["zz"]
+            val_cells = ["v1"] + [x for x in words if x != NA][:2]
+            stacked, word_rows = [], []
+            for n_, (c, kk, v) in enumerate(itertools.product(cat_cells, kat_cells, val_cells)):
+                row = dict(base, cat=c, kat=kk, val=v, HED=CELLS["HED"][n_ % 3], ign=words[n_ % len(words)])
+                stacked.append(row)
+                if (c in words or kk in words) and v == val_cells[(n_ // len(val_cells)) % len(val_cells)]:
+                    word_rows.append(row)
+            tables = [(order, _as_rows(stacked, order), None)]
+            if quick:
+                word_rows = word_rows[(k % 2)::2]
+            for row in word_rows:
+                tables.append((order, _as_rows([row], order), None))         # the whole column holds only the word
+                tables.append((order, _as_rows([row, row], order), None))
+            jobs.append({"kind": "given", "id": 50000 + k, "sidecar": sc, "tables": tables, "rename": k % len(RENAMES),
+                         "text": sc[host]["HED"]["a"] if host == "cat" else sc[host]["HED"]})
     return jobs
 
 
